@@ -34,7 +34,20 @@ DATA_UNITS = (
 
 def observe_impl(m, alpha):
     """Observable state of a real Matcher: (is_complete, valid_next_symbols)."""
-    return (bool(m.is_complete()), frozenset(m.valid_next_symbols()))
+    first = m.valid_next_symbols()
+    snapshot = frozenset(first)
+    # callers own the returned set (make_matching_sequence edits it in place): do the same,
+    # then ask again -- the answer must not depend on what was done to an earlier answer
+    try:
+        first.clear()
+        first.add("verif_garbage_symbol")
+    except AttributeError:
+        pass  # an immutable result cannot be edited
+    comp = bool(m.is_complete())
+    second = frozenset(m.valid_next_symbols())
+    if second != snapshot:
+        return (comp, frozenset(second | {"<differs from the first query: %r>" % (sorted(map(str, snapshot)),)}))
+    return (comp, second)
 
 
 def check_vns_correct(vns, cm, alpha):
